@@ -25,6 +25,7 @@ const CMDS_T: &[&[&str]] = &[
     &["check"],
     &["test", "--seed", "7", "--format", "json"],
     &["test", "--seed", "7", "--format", "json", "--test", "test_other"],
+    &["test", "--seed", "7", "--format", "json", "--define", "DEF_A"],
     &["clean"],
 ];
 
